@@ -1,5 +1,6 @@
 import Mathlib.Analysis.Real.Sqrt
 import Mathlib.Analysis.SpecialFunctions.Exp
+import Mathlib.Analysis.SpecialFunctions.Log.Basic
 import LapyVerif.Model.Scalar
 import LapyVerif.Model.V3
 /-  The ℝ instance of the model's scalar classes: the instance the theorems are about. -/
@@ -8,6 +9,7 @@ namespace LapyVerif
 noncomputable instance : HasSqrt ℝ := ⟨Real.sqrt⟩
 noncomputable instance : HasAbs ℝ := ⟨fun x => |x|⟩
 noncomputable instance : HasExp ℝ := ⟨Real.exp⟩
+noncomputable instance : HasLog ℝ := ⟨Real.log⟩
 
 @[simp] theorem sqrt_real (x : ℝ) : HasSqrt.sqrt x = Real.sqrt x := rfl
 @[simp] theorem abs_real (x : ℝ) : HasAbs.abs x = |x| := rfl
